@@ -121,7 +121,7 @@ def run(vc):
               "trafo_loading current/power); the same transformer with its lv bus out of service; one DC power flow with voltage set points "
               "1.06 / 1.05 (currents, loadings, res_bus.vm_pu)",
         script="import sys\nfrom replaylib.branchmodel import main, main_more\n"
-               "for f in (main, main_more):\n    try:\n        f()\n    except SystemExit as e:\n        if e.code:\n            raise\n",
+               "from replaylib import run_all\nrun_all(main, main_more)\n",
         timeout=900))
     from contracts import C02_build, C02_trafo
     C02_build.run(vc)
